@@ -196,6 +196,26 @@ func Recv(site string, idx int) {
 	mu.Unlock()
 }
 
+// Begin is called at the top of a pipeline entry point (threads = the size of its worker pool).
+func Begin(site string, threads int) {
+	mu.Lock()
+	if !configured {
+		fromEnv()
+	}
+	logLocked("begin", site, threads)
+	mu.Unlock()
+}
+
+// End is called when a pipeline entry point returns.
+func End(site string) {
+	mu.Lock()
+	if !configured {
+		fromEnv()
+	}
+	logLocked("end", site, 0)
+	mu.Unlock()
+}
+
 // Events returns a copy of the events traced since the last Configure.
 func Events() []Event {
 	mu.Lock()
